@@ -372,36 +372,50 @@ pub fn run_check(spec: &CheckSpec, tier: &str, seed: u64) -> i32 {
     let replays = out_dir().join("replays");
     let max_groups = 4;
     for (gi, (key, hits)) in fresh.iter().enumerate() {
-        let (profile, idx, v) = &hits[0];
+        let (profile0, idx0, v0) = &hits[0];
         if gi >= max_groups {
-            println!("(further violation class not minimised: key={} first at {} run {}: {})", key, profile, idx, v.detail);
+            println!("(further violation class not minimised: key={} first at {} run {}: {})", key, profile0, idx0, v0.detail);
             continue;
         }
-        let plan = gen::generate(&ctx, profile, *idx).expect("plan regenerates");
-        let base = format!("{}-{}-{}-{}", spec.property, seed, profile, idx);
-        let in_child = profile.ends_with("-proc");
-        let full = if in_child { run_plan_in_child(&plan).unwrap_or_default() } else { run_plan(&plan, true) };
-        let orig_path = replays.join(format!("{}.json", base));
-        write_replay(&orig_path, v, &plan, &full.events);
-        // plans of "-proc" profiles depend on the whole process history they create: not shrunk
-        let min_plan = if in_child { plan.clone() } else { shrink::minimise(&plan, &v.property, &v.key, 45) };
-        let min_rep = if in_child { full.clone() } else { run_plan(&min_plan, true) };
-        let mv = min_rep.violations.iter().find(|x| x.property == v.property && x.key == v.key).cloned().unwrap_or_else(|| v.clone());
-        let min_path = replays.join(format!("{}-min.json", base));
-        write_replay(&min_path, &mv, &min_plan, &min_rep.events);
-        // fresh-process replay must reproduce
-        let exe = std::env::current_exe().expect("exe");
-        let status = std::process::Command::new(exe).arg("replay").arg(&min_path).stdout(std::process::Stdio::null()).status();
-        match status.map(|s| s.code()) {
-            Ok(Some(1)) => {
-                println!("violation: property={} oracle={} key={} ({} occurrences; first at {} run {}; minimised {} -> {} ops): {}", spec.property, mv.oracle, key, hits.len(), profile, idx, plan.ops.len(), min_plan.ops.len(), mv.detail);
-                println!("VIOLATION property={} replay={}", spec.property, min_path.display());
-                violation_lines += 1;
+        // candidates: the first occurrence, then (if its replay does not reproduce in a fresh process — the
+        // library's behaviour may depend on process-wide history) occurrences from the "-proc" profiles,
+        // whose runs each had a process of their own, then two more ordinary ones
+        let mut candidates: Vec<&(&'static str, u64, Violation)> = vec![&hits[0]];
+        candidates.extend(hits.iter().filter(|h| h.0.ends_with("-proc")).take(3));
+        candidates.extend(hits.iter().skip(1).filter(|h| !h.0.ends_with("-proc")).take(2));
+        let mut reported = false;
+        let mut last_err = String::new();
+        for (profile, idx, v) in candidates {
+            let plan = gen::generate(&ctx, profile, *idx).expect("plan regenerates");
+            let base = format!("{}-{}-{}-{}", spec.property, seed, profile, idx);
+            let in_child = profile.ends_with("-proc");
+            let full = if in_child { run_plan_in_child(&plan).unwrap_or_default() } else { run_plan(&plan, true) };
+            // plans of "-proc" profiles depend on the whole process history they create: not shrunk
+            let min_plan = if in_child { plan.clone() } else { shrink::minimise(&plan, &v.property, &v.key, 45) };
+            let min_rep = if in_child { full.clone() } else { run_plan(&min_plan, true) };
+            let mv = min_rep.violations.iter().find(|x| x.property == v.property && x.key == v.key).cloned().unwrap_or_else(|| v.clone());
+            let min_path = replays.join(format!("{}-min.json", base));
+            write_replay(&min_path, &mv, &min_plan, &min_rep.events);
+            // fresh-process replay must reproduce
+            let exe = std::env::current_exe().expect("exe");
+            let status = std::process::Command::new(exe).arg("replay").arg(&min_path).stdout(std::process::Stdio::null()).status();
+            match status.map(|s| s.code()) {
+                Ok(Some(1)) => {
+                    println!("violation: property={} oracle={} key={} ({} occurrences; this one at {} run {}; minimised {} -> {} ops): {}", spec.property, mv.oracle, key, hits.len(), profile, idx, plan.ops.len(), min_plan.ops.len(), mv.detail);
+                    println!("VIOLATION property={} replay={}", spec.property, min_path.display());
+                    violation_lines += 1;
+                    reported = true;
+                    break;
+                }
+                other => {
+                    last_err = format!("fresh-process replay of {} did not reproduce ({:?})", min_path.display(), other);
+                    let _ = std::fs::remove_file(&min_path);
+                }
             }
-            other => {
-                eprintln!("HARNESS ERROR: fresh-process replay of {} did not reproduce ({:?})", min_path.display(), other);
-                harness_error = true;
-            }
+        }
+        if !reported {
+            eprintln!("HARNESS ERROR: violation class key={} ({} occurrences, first: {}) was observed but none of its replays reproduces in a fresh process: {}", key, hits.len(), v0.detail, last_err);
+            harness_error = true;
         }
     }
 
@@ -499,10 +513,10 @@ pub fn run_check(spec: &CheckSpec, tier: &str, seed: u64) -> i32 {
         fresh.len(),
         wall
     );
-    if harness_error {
-        2
-    } else if violation_lines > 0 {
+    if violation_lines > 0 {
         1
+    } else if harness_error {
+        2
     } else {
         0
     }
